@@ -11,7 +11,7 @@ import (
 )
 
 var repo = flag.String("repo", "/repo", "repository root")
-var allExtractors = []string{"wire"}
+var allExtractors = []string{"wire", "classify"}
 
 var outDir = flag.String("out", "/verif/lean/TSSVerif/Gen", "output directory for generated Lean files")
 
@@ -29,6 +29,8 @@ func main() {
 		switch w {
 		case "wire":
 			name, body = "Wire", genWire()
+		case "classify":
+			name, body = "Classify", genClassify()
 		default:
 			fmt.Fprintf(os.Stderr, "unknown extractor %q\n", w)
 			os.Exit(2)
